@@ -85,7 +85,7 @@ class Member:
         self.node = node            # FunctionDef | value expression (or None)
         self.owner = owner
         self.annotation = annotation
-        self.lineno = getattr(node, 'lineno', None)
+        self.lineno = getattr(node, 'lineno', None) if kind != 'class' else node.node.lineno
 
     def __repr__(self):
         return f'<Member {self.owner.name}.{self.name} {self.kind}>'
@@ -122,6 +122,10 @@ class ClassInfo:
                 self.own_fields.append((st.target.id, st.annotation, st.value))
                 self.members[st.target.id] = Member(st.target.id, 'attr', st.value, self,
                                                     annotation=st.annotation)
+            elif isinstance(st, ast.ClassDef):
+                inner = ClassInfo(st, self.module)
+                inner.outer = self
+                self.members[st.name] = Member(st.name, 'class', inner, self)
             elif isinstance(st, (ast.If, ast.Try)):
                 for sub in ast.iter_child_nodes(st):
                     if isinstance(sub, ast.stmt):
@@ -129,8 +133,16 @@ class ClassInfo:
                     elif isinstance(sub, ast.ExceptHandler):
                         self._collect(sub.body)
 
+    outer = None
+
+    def nested(self, name):
+        m = self.members.get(name)
+        return m.node if m is not None and m.kind == 'class' else None
+
     @property
     def fqn(self):
+        if self.outer is not None:
+            return f'{self.outer.fqn}.{self.name}'
         return f'{self.module.name}.{self.name}'
 
     @property
@@ -402,7 +414,10 @@ class Model:
                     return sub
                 return got
             if isinstance(base, ClassInfo):
-                return self.lookup(base, expr.attr)
+                got = self.lookup(base, expr.attr)
+                if got is not None and got.kind == 'class':
+                    return got.node
+                return got
             if isinstance(base, External):
                 return External(f'{base.dotted}.{expr.attr}')
             return None
@@ -529,6 +544,15 @@ class Model:
 
     def get_class(self, relpath, name):
         mod = self.module_by_path(relpath)
+        if '.' in name:
+            outer, inner = name.split('.', 1)
+            c = self.get_class(relpath, outer)
+            for part in inner.split('.'):
+                m = self.lookup(c, part)
+                if m is None or m.kind != 'class':
+                    raise AnalysisError(f'anchor class vanished: {relpath}:{name}')
+                c = m.node
+            return c
         c = mod.classes.get(name)
         if c is None:
             got = self.resolve(mod, name)
